@@ -71,7 +71,7 @@ type Op struct {
 	DSN   int      `json:"dsn"`             // 0 restricted, 1 unrestricted
 	Table int      `json:"table"`           // 0 | 1
 	Perms []string `json:"perms,omitempty"` // "+read" "-write" ... (table: read write update delete admin; dsn: read write admin)
-	Req   string   `json:"req,omitempty"`   // read readabs describe list insert update delete drop
+	Req   string   `json:"req,omitempty"`   // read readabs describe list insert update delete drop txread txinsert txdelete (one-task @transaction)
 	ID    int      `json:"id,omitempty"`    // row id for insert / update / delete
 }
 
@@ -162,6 +162,32 @@ func (m *model) expect(u int, req string, t int) (tri, string) {
 	var a, dn bool
 	why := ""
 	switch req {
+	case "txread":
+		// @transaction opens the DSN for read+write in the code; the docs ask
+		// for the action that matches the operation
+		a = dAllow("read") && dAllow("write") && ts["read"]
+		switch {
+		case dDeny("read"):
+			dn, why = true, "dsn"
+		case !ts["read"] && !ts["admin"]:
+			dn, why = true, "table"
+		}
+	case "txinsert":
+		a = dAllow("read") && dAllow("write") && ts["write"] && ts["update"]
+		switch {
+		case dDeny("write"):
+			dn, why = true, "dsn"
+		case !ts["write"] && !ts["update"] && !ts["admin"]:
+			dn, why = true, "table"
+		}
+	case "txdelete":
+		a = dAllow("read") && dAllow("write") && ts["delete"]
+		switch {
+		case dDeny("write"):
+			dn, why = true, "dsn"
+		case !ts["delete"] && !ts["admin"]:
+			dn, why = true, "table"
+		}
 	case "read", "readabs", "describe":
 		a = dAllow("read") && ts["read"]
 		switch {
@@ -548,6 +574,15 @@ func oracle(c Case) vkit.Outcome {
 				method, path = "DELETE", fmt.Sprintf("%s/rows?filter=EQ(id,%d)", base, op.ID)
 			case "drop":
 				method, path = "DELETE", base
+			case "txread":
+				method, path = "POST", "/dsns/"+dn+"/tables/@transaction"
+				body = fmt.Sprintf(`[{"operation":"readrows","table":"%s"}]`, tn)
+			case "txinsert":
+				method, path = "POST", "/dsns/"+dn+"/tables/@transaction"
+				body = fmt.Sprintf(`[{"operation":"insert","table":"%s","data":{"id":%d,"name":"%s"}}]`, tn, op.ID, name)
+			case "txdelete":
+				method, path = "POST", "/dsns/"+dn+"/tables/@transaction"
+				body = fmt.Sprintf(`[{"operation":"delete","table":"%s","filters":["EQ(id,%d)"]}]`, tn, op.ID)
 			}
 			exp, why := allow, ""
 			if who < 3 && op.DSN == 0 {
@@ -611,7 +646,7 @@ func oracle(c Case) vkit.Outcome {
 			if class == "2xx" {
 				rows := &m.rows[op.DSN][op.Table]
 				switch op.Req {
-				case "insert":
+				case "insert", "txinsert":
 					*rows = append(*rows, rowT{int64(op.ID), name})
 				case "update":
 					for k := range *rows {
@@ -619,7 +654,7 @@ func oracle(c Case) vkit.Outcome {
 							(*rows)[k].name = name
 						}
 					}
-				case "delete":
+				case "delete", "txdelete":
 					var keep []rowT
 					for _, x := range *rows {
 						if x.id != int64(op.ID) {
@@ -692,7 +727,7 @@ func oracle(c Case) vkit.Outcome {
 var (
 	tblPerms = []string{"read", "write", "update", "delete", "admin"}
 	dsnPerms = []string{"read", "write", "admin"}
-	reqKinds = []string{"read", "read", "readabs", "describe", "list", "insert", "insert", "update", "update", "delete", "delete", "drop"}
+	reqKinds = []string{"read", "read", "readabs", "describe", "list", "insert", "insert", "update", "update", "delete", "delete", "drop", "txread", "txinsert", "txdelete"}
 )
 
 func genPerms(t *rapid.T, pool []string, plusBias int) []string {
@@ -790,6 +825,24 @@ func fixed() []Case {
 			{Kind: "req", User: 3, DSN: 0, Table: 1, Req: "update", ID: 3}, {Kind: "req", User: 3, DSN: 0, Table: 0, Req: "drop"},
 			{Kind: "req", User: 1, DSN: 0, Table: 1, Req: "drop"}, {Kind: "req", User: 1, DSN: 1, Table: 1, Req: "drop"},
 			{Kind: "ugrant", Actor: 1, User: 1, DSN: 0, Table: 0, Perms: []string{"+read"}},
+		}},
+		// DSN-level read grant only, full table grants: changes must be denied on every path
+		{Ops: []Op{
+			{Kind: "dgrant", User: 0, Perms: []string{"+read"}},
+			{Kind: "tgrant", User: 0, DSN: 0, Table: 0, Perms: append([]string{"+admin"}, full...)},
+			{Kind: "tgrant", User: 1, DSN: 0, Table: 0, Perms: full},
+			{Kind: "req", User: 0, DSN: 0, Table: 0, Req: "read"}, {Kind: "req", User: 0, DSN: 0, Table: 0, Req: "txread"},
+			{Kind: "req", User: 0, DSN: 0, Table: 0, Req: "insert", ID: 4}, {Kind: "req", User: 0, DSN: 0, Table: 0, Req: "update", ID: 1},
+			{Kind: "req", User: 0, DSN: 0, Table: 0, Req: "delete", ID: 2}, {Kind: "req", User: 0, DSN: 0, Table: 0, Req: "txinsert", ID: 5},
+			{Kind: "req", User: 0, DSN: 0, Table: 0, Req: "txdelete", ID: 3}, {Kind: "req", User: 1, DSN: 0, Table: 0, Req: "txinsert", ID: 5},
+		}},
+		// DSN-level write grant only: reads must be denied on every path
+		{Ops: []Op{
+			{Kind: "dgrant", User: 1, Perms: []string{"+write"}},
+			{Kind: "tgrant", User: 1, DSN: 0, Table: 1, Perms: full},
+			{Kind: "req", User: 1, DSN: 0, Table: 1, Req: "read"}, {Kind: "req", User: 1, DSN: 0, Table: 1, Req: "readabs"},
+			{Kind: "req", User: 1, DSN: 0, Table: 1, Req: "describe"}, {Kind: "req", User: 1, DSN: 0, Table: 1, Req: "list"},
+			{Kind: "req", User: 1, DSN: 0, Table: 1, Req: "insert", ID: 4}, {Kind: "req", User: 1, DSN: 0, Table: 1, Req: "txread"},
 		}},
 	}
 }
